@@ -3,11 +3,14 @@
 package zoo
 
 import (
+	"bufio"
+	"bytes"
 	"fmt"
 	"math"
 	"math/rand/v2"
 	"net"
 	"reflect"
+	"strings"
 	"time"
 	"unsafe"
 
@@ -140,6 +143,13 @@ func Fixed() []Named {
 		Named{"float64-1e18", 1e18}, Named{"float64-1e30", 1e30}, Named{"float64-m1e30", -1e30}, Named{"float64-max", math.MaxFloat64},
 		Named{"float64-nan", math.NaN()}, Named{"float64-inf", math.Inf(1)}, Named{"float64-minf", math.Inf(-1)},
 		Named{"float64-2^63", 9223372036854775808.0}, Named{"float64-2^53+", 9007199254740993.0},
+	)
+	out = append(out,
+		// one-shot streams (io.Reader without io.Seeker), a seekable reader, maps keyed by any
+		Named{"reader-bytes-buffer", bytes.NewBufferString("stream")}, Named{"reader-bufio", bufio.NewReader(strings.NewReader("buffered"))},
+		Named{"reader-strings", strings.NewReader("seekable")},
+		Named{"map-any-any", map[any]any{"a": 1}}, Named{"map-any-any-intkey", map[any]any{1: "x"}},
+		Named{"map-string-any-holding-map-any-any", map[string]any{"m": map[any]any{"k": "v"}}}, Named{"anyslice-holding-map-any-any", []any{map[any]any{"k": 2}}},
 	)
 	return out
 }
